@@ -14,7 +14,7 @@
 import ast
 from typing import List, Tuple, get_args
 
-from sympy import Symbol
+from sympy import Symbol, sympify
 from sympy.logic import ITE, And, Not, Or, Xor, false, true
 
 from ..boolquant import QuantumBooleanGate
@@ -402,9 +402,12 @@ def translate_expression(expr, env: Env) -> TExp:  # noqa: C901
                 else:
                     subs[fa.name] = a[1]
 
+            # Replace all the formal bits at once
+            xsubs = {Symbol(k): sympify(v) for k, v in subs.items()}
+
             n_exps = []
             for s, e in def_f[3]:
-                n_exps.append((s, e.subs(subs, simultaneus=True)))
+                n_exps.append((s, e.xreplace(xsubs)))
 
             _ret = list(map(lambda se: se[1], n_exps))
 
